@@ -490,6 +490,71 @@ def classify_par(d):
     return 'does-not-parse' if 'does not parse' in s else 'AnnAssign.simple' if 'simple' in s else 'positions' if ('lineno' in s or 'col_offset' in s) else 'structure'
 
 
+def stage_ragged_and_handlers(ctx: Ctx):
+    """deterministic: (a) multi-line sequences whose elements are indented deeper than the target's and whose continuation lines are indented LESS than the difference, put as a slice
+    (the lines are re-indented one by one, with per-line column offsets); (b) the except / except* handlers of a try removed one by one and all at once through every entry point,
+    single-node cut included (the last `except*` gone leaves a plain try / finally). After every step the tree is the parse of its source."""
+    import fst
+    ragged = ['[\n        a.b,\n        [c, d,\n  e.f],\n        g(h),\n]', '(\n        a.b,\n        [c, d,\n  e.f],\n        g(h),\n)', '{\n        a.b,\n        (c +\n d),\n        g(h),\n}',
+              '[\n            aaa,\n            (bbb +\n  ccc),\n            ddd,\n]', '[\n  p,\n        (q\n      + r),\n s]', '[\n        u, (v,\nw),\n        x]', '[\n\t\ta,\n\t(b +\n c),\n\t\td]',
+              '[\n        "é", ü.b,\n        [c, "ö",\n  e.f],\n        g(h),\n]']
+    hosts = [('x = [\n    p,\n    q,\n]\n', 'body[0].value', 'elts'), ('x = (\n    p,\n    q,\n)\n', 'body[0].value', 'elts'), ('x = {\n    p,\n    q,\n}\n', 'body[0].value', 'elts'),
+             ('def f():\n    x = [\n        p,\n        q,\n    ]\n', 'body[0].body[0].value', 'elts'), ('if 1:\n    call(\n        a,\n        b,\n    )\n', 'body[0].body[0].value', 'args'),
+             ('x = [one, two]\n', 'body[0].value', 'elts'), ('x = (\n one,\n two)\n', 'body[0].value', 'elts'), ('class K:\n  def m(self):\n    return {\n            a,\n            b,\n    }\n', 'body[0].body[0].body[0].value', 'elts')]
+    for hsrc, path, fld in hosts:
+        for code in ragged:
+            for i, j in ((0, 0), (1, 1), (2, 2), (0, 1), (1, 2), (0, 2)):
+                for form in ('src', 'fst'):
+                    root = fst.FST(hsrc, 'exec')
+                    node = eval('root.' + path)
+                    rec = {'src': hsrc, 'node': path, 'field': fld, 'code': code, 'start': i, 'stop': j, 'form': form}
+                    try:
+                        node.put_slice(fst.FST(code, 'expr') if form == 'fst' else code, i, j, fld)
+                    except Exception:
+                        ctx.dist['sweep:ragged:refused'] = ctx.dist.get('sweep:ragged:refused', 0) + 1
+                        continue
+                    ctx.tick(('ragged', hsrc, code, i, j, form), 'sweep:ragged-indentation')
+                    d = reparse_diffs(root)
+                    if d:
+                        ctx.violation(f'pos|ragged-slice|{fld}', 'after putting a re-indented multi-line slice the source parsed from scratch differs from the live tree', {**rec, 'result_src': root.src, 'diffs': d[:6]})
+    for star in ('', '*'):
+        for nh in (1, 2, 3):
+            for has_else in (False, True):
+                src = 'pre\ntry:\n    a\n' + ''.join(f'except{star} E{k} as e{k}:\n    h{k}\n' for k in range(nh)) + ('else:\n    d\n' if has_else else '') + 'finally:\n    e\npost\n'
+                for how in ('child-cut', 'child-remove', 'del-item', 'put_slice-none', 'get_slice-cut', 'view-cut'):
+                    for order in ('front', 'back'):
+                        root = fst.FST(src, 'exec')
+                        t = root.body[1]
+                        steps = []
+                        for k in range(nh):
+                            if has_else and len(t.a.handlers) == 1:
+                                break           # an else needs a handler
+                            i = 0 if order == 'front' else len(t.a.handlers) - 1
+                            try:
+                                if how == 'child-cut':
+                                    t.handlers[i].cut()
+                                elif how == 'child-remove':
+                                    t.handlers[i].remove()
+                                elif how == 'del-item':
+                                    del t.handlers[i]
+                                elif how == 'put_slice-none':
+                                    t.put_slice(None, i, i + 1, 'handlers')
+                                elif how == 'get_slice-cut':
+                                    t.get_slice(i, i + 1, 'handlers', cut=True)
+                                else:
+                                    t.handlers[i:i + 1].cut()
+                            except Exception as e:
+                                ctx.violation(f'handler-removal-raise|{how}|{type(e).__name__}', 'removing one handler of a try that keeps its finally raised', {'src': src, 'how': how, 'steps_done': steps, 'error': repr(e)[:200]})
+                                break
+                            steps.append(i)
+                            ctx.tick(('handler-removal', src, how, order, k), 'sweep:handler-removal:' + how)
+                            d = reparse_diffs(root)
+                            if d:
+                                ctx.violation(f'pos|handler-removal|{how}|{"TryStar" if star else "Try"}', 'after removing a handler the source parsed from scratch differs from the live tree',
+                                              {'src': src, 'how': how, 'removed_indices': steps, 'result_src': root.src, 'diffs': d[:5]})
+                                break
+
+
 def run(ctx: Ctx):
     ctx.rule = ('random edit sequences (length 1..8 quick / 1..30 thorough) over the hand corpus + generated programs; ops: replace/remove/cut of '
                 'expressions, statements, patterns; put_slice/insert/extend/prextend of statements and expressions; put(one); attribute '
@@ -510,6 +575,7 @@ def run(ctx: Ctx):
     run_guarded(ctx, stage_operator_sweep)
     run_guarded(ctx, stage_structural_sweep)
     run_guarded(ctx, stage_par_unpar)
+    run_guarded(ctx, stage_ragged_and_handlers)
     if ok:
         try:
             failed = coq_eval_bools('C01_troff', HDR, tracer.terms_offset, shard=40)
